@@ -1118,6 +1118,12 @@ class HigherOrderFormulaBuilder3Phase(
                 assert isinstance(value, str)
                 for phase in range(3):
                     builders[phase].push_oper(value)
+            elif typ == TokenType.CONSTANT:
+                assert isinstance(value, (Quantity, float))
+                for phase in range(3):
+                    builders[phase].push_constant(
+                        value.base_value if isinstance(value, Quantity) else value
+                    )
         return FormulaEngine3Phase(
             name,
             self._create_method,
